@@ -210,3 +210,20 @@ impl std::io::Write for Short<'_> {
         Ok(())
     }
 }
+
+/// a device with room for `1` bytes: takes what fits, then reports that it is full
+pub struct Limited<'a>(pub &'a mut Vec<u8>, pub usize);
+impl std::io::Write for Limited<'_> {
+    fn write(&mut self, b: &[u8]) -> std::io::Result<usize> {
+        let room = self.1.saturating_sub(self.0.len());
+        if room == 0 && !b.is_empty() {
+            return Err(std::io::Error::new(std::io::ErrorKind::Other, "no space left on device"));
+        }
+        let k = b.len().min(room);
+        self.0.extend_from_slice(&b[..k]);
+        Ok(k)
+    }
+    fn flush(&mut self) -> std::io::Result<()> {
+        Ok(())
+    }
+}
